@@ -358,6 +358,26 @@ def _scp_case(case):
                     out['instead'] = m
                     break
                 out['rsps'].append(m)
+            if kind in ('echo', 'find') and 'instead' not in out and outcome != 'raise':
+                # the same SOP class is negotiated on a second context (other id): a further
+                # request there must be answered THERE
+                alt = 201 if pcid != 201 else {'echo': 1, 'find': 5}[kind]
+                mid2 = (mid + 1) & 0xFFFF
+                if kind == 'echo':
+                    peer.send_message(alt, {0x0002: sop, 0x0100: 0x0030, 0x0110: mid2,
+                                            0x0800: 0x0101})
+                    w2 = 1
+                else:
+                    peer.send_message(alt, {0x0002: sop, 0x0100: 0x0020, 0x0110: mid2, 0x0700: 0,
+                                            0x0800: 1}, enc_ds(q))
+                    w2 = nmatch + 1
+                out['second'] = (alt, mid2, [])
+                for _ in range(w2):
+                    m = peer.read_message(timeout=100.0)
+                    if not isinstance(m, dict) or 'fields' not in m:
+                        break
+                    out['second'][2].append(m)
+                out['second_want'] = w2
             if not peer.eof and not peer.reset:
                 world.sim.sleep(1.0)
                 peer.release()
@@ -417,6 +437,20 @@ def _scp_case(case):
                 want_st = 0 if last else (0xFF00 if j % 2 == 0 else 0xFF01)
                 if st != want_st:
                     v('status-not-handler-status', 'match %d expected %04x got %r' % (j, want_st, st))
+        if 'second' in out:
+            alt, mid2, got2 = out['second']
+            if len(got2) != out.get('second_want'):
+                v('second-request-on-other-context-not-answered',
+                  'expected %r responses on context %d, got %d' % (out.get('second_want'), alt,
+                                                                   len(got2)))
+            for m in got2:
+                if m['pcid'] != alt:
+                    v('response-on-other-context',
+                      'second request on context %d (same SOP class as context %d), response on %d'
+                      % (alt, pcid, m['pcid']))
+                if m['fields'].get(0x0120) != mid2:
+                    v('message-id-being-responded-to-wrong', 'second request id %d, response %r' % (
+                        mid2, m['fields'].get(0x0120)))
         if kind == 'n_action' and outcome != 'raise' and len(rsps) == 1:
             reports = [m for p in dest_peers for m in p.messages
                        if m['fields'].get(0x0100) == 0x0100]
